@@ -447,6 +447,17 @@ func c04Quartets(c *Ctx, r *rand.Rand, idx int, o *Obs) {
 	if len(ids) > 4 && r.Intn(2) == 0 {
 		s2[r.Intn(4)] = uint(ids[4])
 	}
+	if len(ids) >= 40 && r.Intn(2) == 0 {
+		// two different 4-subsets that polynomial hashes of the sorted indexes (base 31, 32, 33 ...) cannot tell apart:
+		// {a,b,c,d} and {a,b,c+1,d-base}
+		base := uint(gen.Pick(r, 31, 31, 32, 33, 37))
+		a, b := uint(r.Intn(5)), uint(5+r.Intn(5))
+		cc := uint(10 + r.Intn(10))
+		d := cc + 2 + base + uint(r.Intn(20))
+		s1 = [4]uint{a, b, cc, d}
+		s2 = [4]uint{a, b, cc + 1, d - base}
+		o.Ev("quartet_pairs_engineered_to_collide", 1)
+	}
 	o.Sample = fmt.Sprintf("quartet taxa %v and %v; ", s1, s2)
 	mk := func(s [4]uint, p [4]int) *tree.Quartet {
 		return &tree.Quartet{T1: s[p[0]], T2: s[p[1]], T3: s[p[2]], T4: s[p[3]]}
@@ -484,6 +495,9 @@ func c04Quartets(c *Ctx, r *rand.Rand, idx int, o *Obs) {
 	}
 	// (b) Quartets() of a small tree into a HashMap: one entry per resolved 4-subset, with its topology
 	n := 4 + r.Intn(9)
+	if idx%40 == 3 {
+		n = 36 + r.Intn(10) // taxon indexes beyond 31: 58905..148995 4-subsets
+	}
 	R := c04Tree(r, n, nil)
 	text := R.Newick()
 	o.Sample += Trunc(text, 300)
